@@ -9,8 +9,8 @@ Open Scope Z_scope.
 
 (* The returned point is one of the recorded iterates, and (with the side condition that the noisy
    re-estimation keeps the incumbent point) it was evaluated EARLIER in the run.
-   "Evaluated" is membership in the call list up to Qeq of the coordinates: the side condition
-   noisy_u_ok compares the re-estimated incumbent's point with Qeq_bool (all the harness can check),
+   "Evaluated" is membership of the pair (point, observed value) in the call list up to Qeq: the side
+   condition noisy_u_ok compares the re-estimated incumbent's pair with Qeq_bool (all the harness can check),
    so a point written as 2#2 where the call list has 1#1 is the same point but not Leibniz-equal
    (witness: Proofs/SkeletonFinal.v [returned_x_leibniz_refuted]). *)
 Theorem C05_returned_x_is_evaluated_iterate :
@@ -21,7 +21,7 @@ Theorem C05_returned_x_is_evaluated_iterate :
     (exists c, In c l /\ ic_record c = true /\ e_fault (ic_eval c) = false) ->
     exn s = false -> o_det o = false -> 0 < piter s -> (fe_idx fev < List.length (hist s))%nat ->
     (exists h, nth_error (hist s) (fe_idx fev) = Some h /\ i_u (cur (fo_st f)) = i_u (h_inc h) /\ i_y (cur (fo_st f)) = i_y (h_inc h)) /\
-    (exists u' y, In (u', Some y) (calls s) /\ Forall2 Qeq u' (i_u (cur (fo_st f)))).
+    (exists u' y, In (u', Some y) (calls s) /\ Forall2 Qeq u' (i_u (cur (fo_st f))) /\ (y == i_y (cur (fo_st f)))%Q).
 Proof. exact returned_x_is_evaluated_iterate. Qed.
 Print Assumptions C05_returned_x_is_evaluated_iterate.
 
